@@ -154,7 +154,11 @@ func (w *richWriter) WriteByte(c byte) error              { return w.b.WriteByte
 func (w *richWriter) WriteRune(r rune) (int, error)       { return w.b.WriteRune(r) }
 func (w *richWriter) ReadFrom(r io.Reader) (int64, error) { return w.b.ReadFrom(r) }
 
-var destKindNames = []string{"*bytes.Buffer", "*strings.Builder", "a type with only a Write method", "a type with Write, WriteString, WriteByte, WriteRune and ReadFrom", "*bufio.Writer of 16 bytes, flushed afterwards", "*io.PipeWriter", "*os.File (pipe)", "*os.File (regular file)"}
+var destKindNames = []string{"*bytes.Buffer", "*strings.Builder", "a type with only a Write method", "a type with Write, WriteString, WriteByte, WriteRune and ReadFrom", "*bufio.Writer of 16 bytes, flushed afterwards", "*io.PipeWriter", "*os.File (pipe)", "*os.File (regular file)",
+	"*bytes.Buffer that already holds an earlier document", "*strings.Builder that already holds text", "*os.File opened for appending to existing content"}
+
+// destPrefix is what a destination may already hold when RenderTo is handed it: RenderTo appends its document.
+const destPrefix = "an earlier document\n[\n{\"k\": 1}\n]\n"
 
 // renderInto runs f with a healthy destination of the given kind and returns what arrived there.
 func renderInto(kind int, f func(w io.Writer) error) (string, error) {
@@ -200,6 +204,32 @@ func renderInto(kind int, f func(w io.Writer) error) (string, error) {
 		err := f(pw)
 		pw.Close()
 		return string(<-done), err
+	case 8:
+		b := bytes.NewBufferString(destPrefix)
+		err := f(b)
+		return strings.TrimPrefix(b.String(), destPrefix), err
+	case 9:
+		var b strings.Builder
+		b.WriteString(destPrefix)
+		err := f(&b)
+		return strings.TrimPrefix(b.String(), destPrefix), err
+	case 10:
+		fl, ferr := os.CreateTemp(destDir, "dest-*.out")
+		if ferr != nil {
+			return renderInto(0, f)
+		}
+		fl.WriteString(destPrefix)
+		fl.Close()
+		fa, ferr := os.OpenFile(fl.Name(), os.O_WRONLY|os.O_APPEND, 0)
+		if ferr != nil {
+			os.Remove(fl.Name())
+			return renderInto(0, f)
+		}
+		err := f(fa)
+		fa.Close()
+		b, _ := os.ReadFile(fl.Name())
+		os.Remove(fl.Name())
+		return strings.TrimPrefix(string(b), destPrefix), err
 	case 7:
 		fl, ferr := os.CreateTemp(destDir, "dest-*.out")
 		if ferr != nil {
